@@ -33,7 +33,7 @@ func main() {
 			if strings.HasSuffix(f, "_test.go") {
 				continue
 			}
-			if b := filepath.Base(f); d == "table" && b != "native_backend.go" && b != "internal.go" && b != "table.go" {
+			if b := filepath.Base(f); d == "table" && b != "native_backend.go" && b != "internal.go" && b != "table.go" && b != "game.go" {
 				continue
 			}
 			fset := token.NewFileSet()
